@@ -41,6 +41,9 @@ def _work(task):
     if kind == 'seq':
         _, R, seed, bases, first, count, realfs = task
         return c16.work_sequences(R, seed, bases, first, count, realfs)
+    if kind == 'bulk':
+        _, R, seed, j = task
+        return c16.work_bulk(R, seed, j)
     if kind == 'soup':
         _, R, part, nparts = task
         return c16.work_soups(R, part, nparts)
@@ -76,6 +79,9 @@ def run(R, tier, seed):
     for part in range(16):
         tasks.append(('soup', R, part, 16))
         arm.append('soup')
+    for j in range(2):
+        tasks.append(('bulk', R, seed, j))
+        arm.append('bulk')
     small = sorted((b for b in bases if 60 <= len(b[1]) <= 700 and b[0].startswith('gen/')), key=lambda b: b[0])
     for name, base in small[:P['scale_bases']]:
         tasks.append(('scale', R, seed, name, base))
